@@ -66,6 +66,7 @@ pub use zip_archive::ZipArchive;
 
 // cd_pos / dir_parsed: the directory walk of C03 (n records, each parsed per APPNOTE, in order)
 //@include spec/dir_parsed.rs
+//@include spec/dir_count.rs
 pub open spec fn dir_start_of(files: Seq<ZipFileData>) -> int { if files.len() > 0 { files[0].central_header_start as int } else { 0 } }
 // lookup by name returns the LAST entry with that name
 pub open spec fn names_last_wins(files: Seq<ZipFileData>, m: Map<String, usize>) -> bool {
